@@ -423,7 +423,7 @@ pub fn record(mode: &str, seed: u64, n: usize, out: &mut Out) {
                 let b = gen::ser(&m); if b.is_empty() { continue; }
                 let ks: Vec<usize> = (0..b.len()).collect();
                 let cfg = if i % 2 == 0 { Some(random_filter(&mut r, Some(&m))) } else { None };
-                { let mut c = 0u64; let e = prefixes_event_f(&b, sh, &ks, &mut c, cfg.as_ref()); out.calls += c; out.emit(e, true); }
+                { let mut c = 0u64; let mut e = prefixes_event_f(&b, sh, &ks, &mut c, cfg.as_ref()); e["m"] = proj::message(&m); out.calls += c; out.emit(e, true); }
                 if i % 60 == 11 {
                     // a maximal message (LEN = 65519 .. 65535): cuts in the headers, strided through the payload, and the last 40
                     let len = *r.pick(&[65519usize, 65520, 65534, 65535]);
@@ -679,14 +679,23 @@ pub fn record(mode: &str, seed: u64, n: usize, out: &mut Out) {
                 if i % 4 == 0 {
                     let idb: Vec<u8> = (0..12).map(|_| *r.pick(&alphabet)).collect();
                     let be = r.coin();
-                    let mut m = vec![if be { 0x27 } else { 0x25 }, 1, 0, 22];
-                    m.extend(&idb[0..4]);
-                    m.extend([0x40, 1]);   // non-verbose log: the 4 payload bytes are the message id
-                    m.extend(&idb[4..12]);
-                    m.extend([1, 2, 3, 4]);
-                    let mut s = b"DLT\x01\0\0\0\0\0\0\0\0".to_vec();
-                    s.extend((0..4).map(|_| *r.pick(&alphabet)));
-                    s.extend(&m);
+                    let shid: Vec<u8> = (0..4).map(|_| *r.pick(&alphabet)).collect();
+                    // an entirely canonical non-verbose log message (NOAR 0; the 4 payload bytes are the message id) around the id fields
+                    let mk = |idb: &[u8], shid: &[u8]| -> (Vec<u8>, Vec<u8>) {
+                        let mut m = vec![if be { 0x27 } else { 0x25 }, 1, 0, 22];
+                        m.extend(&idb[0..4]);
+                        m.extend([0x40, 0]);
+                        m.extend(&idb[4..12]);
+                        m.extend([1, 2, 3, 4]);
+                        let mut s = b"DLT\x01\0\0\0\0\0\0\0\0".to_vec();
+                        s.extend(shid);
+                        s.extend(&m);
+                        (m, s)
+                    };
+                    let (m, s) = mk(&idb, &shid);
+                    // control: the same message with plain ids.  If the code does not return a message for it either, a refusal of
+                    // the variant says nothing about the id rule (the premise of the relation)
+                    let (m0, s0) = mk(b"ECU\0APP\0CTX\0", b"ECU\0");
                     // the same messages cut inside each of their id fields, with and without junk in front of the storage header
                     let junk: Vec<u8> = (0..r.below(6)).map(|_| *r.pick(&[b'X', 0u8, b'D', 9u8])).collect();
                     for cut in [12usize, 13, 14, 15, 16 + 4, 16 + 5, 16 + 7, 16 + 10, 16 + 11, 16 + 13, 16 + 14, 16 + 17] {
@@ -706,17 +715,25 @@ pub fn record(mode: &str, seed: u64, n: usize, out: &mut Out) {
                     out.calls += 4;
                     // with and without a filter that lets everything pass (the ids of the message returned are those of the bytes)
                     let pass_all = DltFilterConfig { min_log_level: None, app_ids: None, ecu_ids: None, context_ids: None, app_id_count: 0, context_id_count: 0 };
-                    let mut e1 = parse_event(&m, if i % 8 == 0 { Some(&pass_all) } else { None }, false);
+                    out.calls += 3;
+                    let f1 = if i % 8 == 0 { Some(&pass_all) } else { None };
+                    let mut e1 = parse_event(&m, f1, false);
                     e1["op"] = json!("ids");
+                    e1["ctrl"] = json!(parse_event(&m0, f1, false)["res"]["v"].as_str().unwrap_or("none"));
                     out.emit(e1, true);
-                    let mut e2 = parse_event(&s, if i % 8 == 4 { Some(&pass_all) } else { None }, true);
+                    let f2 = if i % 8 == 4 { Some(&pass_all) } else { None };
+                    let mut e2 = parse_event(&s, f2, true);
                     e2["op"] = json!("ids");
+                    e2["ctrl"] = json!(parse_event(&s0, f2, true)["res"]["v"].as_str().unwrap_or("none"));
                     out.emit(e2, true);
                     // bytes skipped in front of the storage header
                     let mut js = junk.clone();
                     js.extend(&s);
+                    let mut js0 = junk.clone();
+                    js0.extend(&s0);
                     let mut e3 = parse_event(&js, None, true);
                     e3["op"] = json!("ids");
+                    e3["ctrl"] = json!(parse_event(&js0, None, true)["res"]["v"].as_str().unwrap_or("none"));
                     out.emit(e3, true);
                 }
             }
@@ -1037,13 +1054,15 @@ pub fn rerun(ev: &J) -> J {
             let b = unproj::bytes(&ev["full"]);
             let ks: Vec<usize> = ev["ks"].as_array().unwrap().iter().map(|k| k.as_u64().unwrap() as usize).collect();
             let mut c = 0u64;
-            prefixes_event_f(&b, sh, &ks, &mut c, cfg.as_ref())
+            let mut e = prefixes_event_f(&b, sh, &ks, &mut c, cfg.as_ref());
+            if let Some(m) = ev.get("m") { e["m"] = m.clone(); }
+            e
         }
         "nopanic" => { let mut e2 = ev.clone(); e2["op"] = ev["api"].clone(); let mut e3 = nopanic(rerun(&e2)); if let Some(d) = ev.get("direct") { e3["direct"] = d.clone(); } e3 }
         "reser3" => { let mut e = reser_event(&unproj::message(&ev["m"]), true); e["op"] = json!("reser3"); e }
         "frame" => frame_event(&buf(), cfg.as_ref(), sh, ev["api"].as_str().unwrap()),
         "filter" => filter_event(&buf(), cfg.as_ref().unwrap(), sh, true),
-        "ids" | "idcut" => { let mut e = parse_event(&buf(), None, sh); e["op"] = ev["op"].clone(); e }
+        "ids" | "idcut" => { let mut e = parse_event(&buf(), None, sh); e["op"] = ev["op"].clone(); if let Some(c) = ev.get("ctrl") { e["ctrl"] = c.clone(); } e }
         "junkparse" => junkparse_event(&unproj::bytes(&ev["junk"]), &unproj::bytes(&ev["msg"]), &unproj::bytes(&ev["sfx"]), cfg.as_ref()),
         "recover" => {
             let mut stream = vec![];
